@@ -74,6 +74,29 @@ CHECKS = {
         technique="TLA+ constructor machine (Ctor.tla, ExactAngles.tla) enumerated by TLC; per-entry-point replay; "
                   "validity predicate + exact comparison",
         ref="6 (C01)"),
+    "C04": dict(
+        text="GroupMachine.tla carries a representation variable and a Conv action for every conversion the library "
+             "offers among {SO3, SE3, UnitQuaternion, Twist3, UnitDualQuaternion} and {SO2, SE2, Twist2} (+ SE2->SE3); "
+             "TLC checks that conversion leaves the abstract motion unchanged (C04_ConvKeeps, C04_RepShape) on the closed "
+             "lattice (1992 states, every transition replayed) and generates behaviours that interleave group operations "
+             "and conversions; a live object is carried through them and compared with the exact motion after every "
+             "step, so convert(X*Y)=convert(X)*convert(Y) and convert(X.inv())=convert(X).inv() are exercised in every "
+             "order. Every named constructor (Ctor.tla) must give the documented rotation in every class offering it. "
+             "Valuations: round trips at angles within 1e-12..1e-9 of 0 and pi, q vs -q equality, embeddings acting on points.",
+        note="UnitDualQuaternion values are built and read through the library's SE3 conversions; exact oracle on the "
+             "rational sub-domain only, valuations judged by round trip / cross-route agreement to 1e-6.",
+        technique="TLA+ group machine with representation/conversion actions, TLC exhaustive lattice + simulated "
+                  "behaviours replayed through one live object",
+        ref="6 (C04)"),
+    "C06": dict(
+        text="PointAction.tla computes R p + t exactly on rational points; (XY)p = X(Yp), X^-1(Xp) = p, distance and "
+             "handedness preservation are TLC-checked laws of the model. TLC enumerates every call form (one pose x N "
+             "points N=1..7 in list/tuple/1-D/row/column/d x N form; 2..5 poses x one point; 3D and 2D) and each is "
+             "executed through the matrix classes, UnitQuaternion, UnitDualQuaternion, homtrans and qvmul at data "
+             "scales 1e-6, 1, 1e6; values and result shapes are compared with the exact columns (1e-9 relative).",
+        note="Poses are a fixed list of lattice and rational motions; real-valued poses are covered by C02/C04 laws.",
+        technique="TLA+ exact point-action model enumerated by TLC; per-route replay",
+        ref="6 (C06)"),
 }
 
 ENGINE = {"name": "tlc-replay", "path": "/verif/check",
